@@ -43,7 +43,7 @@ P = {
   ref="5/C07"),
  "C08": dict(
   technique="runtime monitor: year/month pillars of days and instants against a Lichun/Jie/Five-Tigers oracle built on the term-day list",
-  text="Day view for every civil date (thorough) or sampled years (quick); time view for the second before/after every Jie instant and random instants; only the 720 legal pairs may occur and all must be seen in thorough.",
+  text="Day view for every civil date (thorough) or sampled years (quick); time view for the second before/after every Jie instant, random instants, and two instants on each of the first and last six days and the two days around the lunar new year of every civil year (both tiers); only the 720 legal pairs may occur and all must be seen in thorough.",
   note="Term instants from the library; rule encoding is the harness' own.",
   ref="5/C08"),
  "C09": dict(
